@@ -561,6 +561,9 @@ def n_r5_headers(p: Project, rep: Report):
     fn = ci.own_func("http_headers")
     if fn is None:
         raise AnalysisError("OFXClient.http_headers not found")
+    decos = [text(d) for d in fn.decorator_list]
+    cached = [d for d in decos if d.split(".")[-1].split("(")[0] in ("cached_property", "lru_cache", "cache")]
+    rep.check("N-R5", "http_headers:computed-on-every-request", not cached, f"http_headers is decorated with {cached}: the headers are frozen at the first request - `client.useragent = ...` on a live client (the usual remedy when an institution turns the default agent away) no longer reaches the wire" if cached else "", loc(p, fn))
     rets = [r for r in own_nodes(fn) if isinstance(r, ast.Return)]
     if not rets:
         raise AnalysisError("N-R5: http_headers returns nothing")
@@ -974,3 +977,46 @@ def n_r14_msgset_wiring(p: Project, rep: Report):
         ok = stem == wrapper[rq]
         rep.check("N-R14", f"_get_service_urls:{rq}<-{ms}", ok, f"{rq} requests are sent to the URL of {ms}, but wrap_stmtrq puts them in {wrapper[rq]}MSGSRQV1: the profile's URL for {wrapper[rq]}MSGSET is the one that serves them" if not ok else "", loc(p, node))
     rep.floor("N-R14", len(pairs), 5, "message-set / request-tuple pairings")
+
+
+def n_r15_one_service_url_or_none(p: Project, rep: Report):
+    """picking `the` service URL out of a set requires the set to have one member"""
+    rep.rule("N-R15", "where a credentialed request takes its URL out of the SET of URLs the profile advertises (`urls = set(<mapping>.values()); url = urls.pop()`), every path to the pop() has established that the set has exactly one member (assert len(urls) == 1, or a raise unless it is): set.pop() of a larger set returns an ARBITRARY member, so with different URLs advertised for banking and investments the user's credentials go to a server the profile did not name for that message set - failing closed is what the code does today")
+    from . import paths as PT
+    from .flat import flat
+
+    ci = client_class(p)
+    n = 0
+    for fn0 in [f for f in ci.node.body if isinstance(f, ast.FunctionDef)]:
+        pops = [c for c in ast.walk(fn0) if isinstance(c, ast.Call) and isinstance(c.func, ast.Attribute) and c.func.attr == "pop" and not c.args and isinstance(c.func.value, ast.Name)]
+        sets_ = {st.targets[0].id for st in ast.walk(fn0) if isinstance(st, ast.Assign) and len(st.targets) == 1 and isinstance(st.targets[0], ast.Name) and isinstance(st.value, ast.Call) and text(st.value.func) == "set" and st.value.args and text(st.value.args[0]).endswith(".values()")}
+        pops = [c for c in pops if c.func.value.id in sets_]
+        if not pops:
+            continue
+        try:
+            pl = PT.enumerate_paths(fn0, None, Expander(fn0), resolve=False)
+        except AnalysisError as e:
+            rep.note(f"N-R15 undecided: {fn0.name}: {e}")
+            continue
+        cfg = pl.cfg
+        for c in pops:
+            nm = c.func.value.id
+            n += 1
+            node = next((x for x in cfg.nodes if x.stmt is not None and x.kind not in ("join", "handlers", "test", "loop") and isinstance(x.stmt, (ast.Assign, ast.AnnAssign, ast.Expr, ast.Return, ast.AugAssign)) and any(y is c for y in ast.walk(x.stmt))), None)
+            if node is None:
+                rep.note(f"N-R15 undecided: {fn0.name}: pop() not located")
+                continue
+            goal = PT.any_of(PT.atom(f"len({nm}) == 1", True), PT.atom(f"1 == len({nm})", True))
+            ok = True
+            for q in pl:
+                cb = q.conds_before(node.id)
+                if cb is None:
+                    continue
+                facts = PT.simple_conds(cb)
+                est = facts.get(f"len({nm}) == 1") is True or facts.get(f"1 == len({nm})") is True or facts.get(f"len({nm}) != 1") is False or facts.get(f"raises(assert len({nm}) == 1)") is False
+                if not est:
+                    ok = False
+            rep.check("N-R15", f"OFXClient.{fn0.name}:{nm}.pop():one-member", ok, f"{fn0.name} takes `{nm}.pop()` on a path that has not established len({nm}) == 1: when the profile advertises different URLs for different message sets an arbitrary one is used, and the signed-on request reaches a server not advertised for it" if not ok else "", loc(p, c))
+    rep.unit("service_url_picks", n)
+    if n == 0:
+        rep.note("N-R15: no `set(...values()).pop()` pick of a service URL found")
